@@ -1498,6 +1498,12 @@ class ListNode(SyntaxNodeBase):
         :rtype: str
         """
         if front and text:
+            # an entry can not follow a comment on the same line: it would be part of the comment
+            last_line = front.rsplit("\n", 1)[-1]
+            if "$" in last_line or (
+                "\n" in front and ListNode._COMMENT_LINE.match(last_line)
+            ):
+                front += "\n"
             if front[-1] == "\n":
                 lead = len(text) - len(text.lstrip(" "))
                 if lead < constants.BLANK_SPACE_CONTINUE:
@@ -1505,6 +1511,8 @@ class ListNode(SyntaxNodeBase):
             elif not front[-1].isspace() and not text[0].isspace():
                 return f"{front} {text}"
         return front + text
+
+    _COMMENT_LINE = re.compile(r" {0,4}[cC]( |$)")
 
     def __iter__(self):
         for node in self.nodes:
